@@ -24,6 +24,8 @@ def handle (j : Json) : Json :=
       if op == "add" then ok (ofInts (toList (add a b)))
       else if op == "sub" then ok (ofInts (toList (sub a b)))
       else if op == "free" then ok (ofInts (toList (free a b)))
+      else if op == "iadd" then ok (Json.arr #[ofInts (toList (augAdd a b).1), ofInts (toList (augAdd a b).2)])
+      else if op == "isub" then ok (Json.arr #[ofInts (toList (augSub a b).1), ofInts (toList (augSub a b).2)])
       else if op == "gt" then ok (Json.bool (gt a b))
       else if op == "lt" then ok (Json.bool (lt a b))
       else if op == "eq" then ok (Json.bool (eq a b))
